@@ -173,6 +173,20 @@ CHECKS = {
   note='trusted: tar listing of the doppel archive, regex scan of $(srcdir)/ paths, Script.tla; only #included '
        'headers are not required',
   design='5/C18'),
+ 'C19': dict(
+  technique='TLA+ state machine over the stack of executing scripts with the documented path resolution (Scope.tla); '
+            'TLC-generated trees of submodule scripts and argument spellings (Scope_Gen.tla); the scripts print '
+            'probe events while the real bfg9000 executes them; traces validated by TLC (Scope_Trace.tla)',
+  text='The generated scripts themselves log Enter/Export/Probe/Resolve/Return/Caught/Args events during real '
+       'configure (two argument spellings) and regenerate runs; TLC replays the stack discipline and checks that '
+       'exports reach exactly the caller, variables of any other script are invisible, every input path resolves '
+       'against the script\'s source directory and every output path (executable, static library, object file, '
+       'build_step with one and two outputs, copy_file) against the matching build subdirectory at depth up to 3 '
+       'with ../ references and caught submodule failures, and that plain and --x- spellings and regeneration see '
+       'the same argument namespace.',
+  note='trusted: the probe code embedded in the generated scripts, Scope.tla as the documented resolution rule; '
+       'output leaf names are not compared',
+  design='5/C19'),
 }
 
 NOT_YET = {}
